@@ -196,6 +196,17 @@ pub fn check_aggregated(ck: &mut Checker<'_>, calm: bool) {
         }) else {
             continue;
         };
+        // the comparison presupposes that both subscriptions stood before the first write: a
+        // subscriber held up by stalls may set its second subscription up while the writers are
+        // already at work, and then the two snapshots differ
+        let ready = match (&agg.ans, &plain.ans) {
+            (Some((a, _)), Some((b, _))) => (*a).max(*b),
+            _ => continue,
+        };
+        if ops.iter().any(|o| o.client != agg.client && o.inv < ready) {
+            ck.out.probe("aggregated_pair_skipped_writers_started_before_both_subscriptions_stood");
+            continue;
+        }
         ck.out.probe("aggregated_pairs_checked");
         let live_only = a.live_only.unwrap_or(false);
         type Seq = BTreeMap<String, Vec<(bool, String, u64)>>; // key -> [(deleted, value, time)]
